@@ -148,7 +148,14 @@ def run_split(task):
                         break
         if pre == "nested":
             # split once, build a solver on a part, then split that part again (on any variable)
-            first = p.split(rnd.randint(1, 3), rnd.randrange(len(model["idx"])))
+            k1, v1 = rnd.randint(1, 3), rnd.randrange(len(model["idx"]))
+            try:
+                first = p.split(k1, v1)
+            except Exception as e:
+                res["evals"] += 1
+                fail("split_raised:" + type(e).__name__, "split(%d, %d) raised %s" % (k1, v1, str(e)[:200]),
+                     {"split": {"model": model, "k": k1, "var": v1}, "cfg": cfg})
+                continue
             p = rnd.choice(first)
             nested_model = dict(model)
             nested_model["doms"] = [list(x) for x in p.shr_domains_lst]
